@@ -331,6 +331,8 @@ impl HexCase {
             cmd.argv.push("/dev/stdin".into());
             cmd.stdin = Some(input.to_vec());
             cmd.stdin_pipe = true;
+            // the shim applies the R plan to every descriptor that names fd 0's pipe
+            cmd.rplan = r.to_vec();
         } else {
             cmd.argv.push("in.bin".into());
             cmd.files.push(NamedFile {
